@@ -21,6 +21,8 @@ fn read_nums(path: &str) -> Vec<u32> {
 pub fn run(ctx: &mut Ctx) {
     let thorough = ctx.thorough();
     let dummy = Case::new("tables");
+    // tables built in children that may use only 1, 3, 7, … CPUs: engines still multiply alike for every log_m
+    crate::props::c03::env_children(ctx, thorough);
     // ------------------------------------------------------------ tables, exhaustively
     let dir = std::env::temp_dir().join(format!("rsmodel-tables-{}", std::process::id()));
     let _ = std::fs::create_dir_all(&dir);
@@ -286,6 +288,37 @@ pub fn run(ctx: &mut Ctx) {
             }
         }
         Err(e) => ctx.model_fail(e, &dummy, None),
+    }
+    // few marks, EVERY field point: log of the locator product by definition (harness arithmetic, no transform):
+    // result[x] = sum over marks j != x of log(x ^ j)  (mod 65535) — a shortcut for sparse indicator vectors that is
+    // wrong at a handful of points only (a lost end-around carry, say) is invisible to sampled points
+    {
+        let mut glog = vec![0u32; 65536];
+        for i in 0..65535usize { glog[gexp[i] as usize] = i as u32; }
+        for i in 0..(if thorough { 48 } else { 8 }) {
+            let nm = if i % 8 == 7 { ctx.rng.range(9, 24) } else { 1 + (i % 8) };
+            let hi = *ctx.rng.pick(&[16usize, 300, 65536]);
+            let mut marks = ctx.rng.subset(hi, nm.min(hi));
+            if i % 3 == 0 && !marks.contains(&65535) && hi == 65536 { marks.pop(); marks.push(65535); }
+            let cover = marks.iter().max().map(|m| m + 1).unwrap_or(0);
+            let trunc = if i % 2 == 0 { 65536 } else { ctx.rng.range(cover, 65536) };
+            for (name, p) in prims.iter() {
+                let mut e = Box::new([0u16; 65536]);
+                for m in &marks { e[*m] = 1; }
+                p.eval_poly(&mut e, trunc);
+                ctx.evaluations += 1;
+                let bad = (0..65536usize).find(|&x| {
+                    let want: u64 = marks.iter().filter(|&&j| j != x).map(|&j| glog[x ^ j] as u64).sum::<u64>() % 65535;
+                    (e[x] as u64) % 65535 != want
+                });
+                if let Some(x) = bad {
+                    let c = Case { name: "eval_poly-all-points".into(), lines: vec![format!("marks {:?} truncated_size {}", marks, trunc)], with_model: false };
+                    ctx.oracle_fail(format!("eval_poly({}) at x={} is not the log of the locator product ({} marks {:?}, truncated_size {})", name, x, marks.len(), marks, trunc), &c, None);
+                    break;
+                }
+            }
+            ctx.count("eval_poly_all_points_marks", &marks.len().to_string());
+        }
     }
     // model's algorithmic eval_poly == implementation (all 65536 outputs), a few vectors
     for _ in 0..(if thorough { 12 } else { 3 }) {
